@@ -50,10 +50,20 @@ def conj_route(route, q):
         return np.asarray(QuaternionArray(np.array([q, q])).conjugate(), dtype=float)[0]
     if route == "inverse":
         return np.asarray(Q(q).inverse, dtype=float)
+    if route == "q_conj[batch]":
+        other = np.array([0.5, -0.5, 0.5, 0.5])
+        return np.asarray(ori.q_conj(np.array([other, other, q])), dtype=float)[2]
+    if route == "Quaternion[S].copy.conjugate":
+        return np.roll(np.asarray(QS(q).copy().conjugate, dtype=float), 1)
     raise KeyError(route)
 
 
-CONJ_ROUTES = ["conjugate", "conj", "q_conj", "array_conjugate", "inverse"]
+def QS(q):
+    """the same quaternion held by an object in scalar-last storage"""
+    return Quaternion(np.roll(np.array(q, dtype=float), -1), order="S")
+
+
+CONJ_ROUTES = ["conjugate", "conj", "q_conj", "q_conj[batch]", "array_conjugate", "inverse", "Quaternion[S].copy.conjugate"]
 
 
 def dcm_route(route, q):
@@ -76,11 +86,20 @@ def dcm_route(route, q):
         return np.asarray(ori.q2R(np.array([q, q]), version=1), dtype=float)[1]
     if route == "q2R.v2[batch]":
         return np.asarray(ori.q2R(np.array([q, q]), version=2), dtype=float)[0]
+    if route == "Quaternion[S].to_DCM":
+        return np.asarray(QS(q).to_DCM(), dtype=float)
+    if route == "neg(Quaternion[S]).to_DCM":
+        return np.asarray((-QS(-q)).to_DCM(), dtype=float)
+    if route == "Quaternion[S].copy.to_DCM":
+        return np.asarray(QS(q).copy().to_DCM(), dtype=float)
+    if route == "Quaternion[S].view.to_DCM":
+        return np.asarray(QS(q).view().to_DCM(), dtype=float)
     raise KeyError(route)
 
 
 DCM_ROUTES = ["Quaternion.to_DCM", "QuaternionArray.to_DCM", "DCM(q=)", "DCM.from_quaternion",
-              "DCM.from_quaternion[batch]", "q2R.v1", "q2R.v2", "q2R.v1[batch]", "q2R.v2[batch]"]
+              "DCM.from_quaternion[batch]", "q2R.v1", "q2R.v2", "q2R.v1[batch]", "q2R.v2[batch]",
+              "Quaternion[S].to_DCM", "neg(Quaternion[S]).to_DCM", "Quaternion[S].copy.to_DCM", "Quaternion[S].view.to_DCM"]
 
 
 def rot_route(route, q, v):
@@ -95,7 +114,9 @@ def rot_route(route, q, v):
         qq = Q(q)
         t = Q(qq.product(np.array([0.0, v[0], v[1], v[2]])), versor=False)
         return np.asarray(t.product(qq.conjugate), dtype=float)[1:], False
+    if route == "Quaternion[S].copy.rotate":
+        return np.asarray(QS(q).copy().rotate(v.copy()), dtype=float), False
     raise KeyError(route)
 
 
-ROT_ROUTES = ["Quaternion.rotate", "q_rot", "sandwich"]
+ROT_ROUTES = ["Quaternion.rotate", "q_rot", "sandwich", "Quaternion[S].copy.rotate"]
